@@ -72,3 +72,416 @@ Proof.
       pose proof (heap_root_min (a0 :: a') HH i Hi) as Hle. rewrite Hnth in Hle. simpl in Hle. exact (Hle Hlt).
   - split; intros ->; [apply Permutation_nil in HP; exact HP | apply Permutation_sym, Permutation_nil in HP; exact HP].
 Qed.
+
+(* ======================================================================== *)
+(*  heappush and heappop preserve the heap condition                         *)
+(* ======================================================================== *)
+Notation par i := (Nat.div2 (i - 1)).
+
+Lemma length_set_nth {A} (l : list A) : forall i x, length (set_nth i x l) = length l.
+Proof. induction l as [|y l IH]; intros [|i] x; simpl; auto. Qed.
+
+Lemma nth_set_nth {A} (l : list A) d : forall i x j, (i < length l)%nat ->
+  nth j (set_nth i x l) d = if Nat.eqb j i then x else nth j l d.
+Proof.
+  induction l as [|y l IH]; intros i x j Hi; simpl in Hi; [lia|].
+  destruct i as [|i]; destruct j as [|j]; simpl; try reflexivity. apply IH. lia.
+Qed.
+
+Lemma par_child i p : (0 < i)%nat -> par i = p -> i = (2 * p + 1)%nat \/ i = (2 * p + 2)%nat.
+Proof.
+  intros Hi <-. pose proof (Nat.div2_odd (i - 1)) as H. destruct (Nat.odd (i - 1)); simpl in H; lia.
+Qed.
+Lemma par_left p : par (2 * p + 1) = p.
+Proof. replace (2 * p + 1 - 1)%nat with (2 * p)%nat by lia. apply Nat.div2_double. Qed.
+Lemma par_right p : par (2 * p + 2) = p.
+Proof. replace (2 * p + 2 - 1)%nat with (S (2 * p)) by lia. apply Nat.div2_succ_double. Qed.
+
+Lemma key_lt_le x y : key_lt x y -> key_le x y.
+Proof. intros H H'. apply (key_lt_irrefl x). eapply key_lt_trans; eauto. Qed.
+Lemma key_ltb_false_le x y : key_ltb x y = false -> key_le y x.
+Proof. intros H Hl. apply key_ltb_lt in Hl. congruence. Qed.
+
+Notation "a .[ i ]" := (nth i a hdummy) (at level 2, format "a .[ i ]").
+
+(* a heap with a hole at [pos] into which [x] is to be placed (loop invariant of _siftdown(heap, 0, pos)):
+   all parent/child pairs are ordered except the pair whose child is the hole; x is <= the children of
+   the hole; the parent of the hole is <= the children of the hole *)
+Definition Hole (b : list hentry) (pos : nat) (x : hentry) : Prop :=
+  (pos < length b)%nat /\
+  (forall i, (0 < i < length b)%nat -> i <> pos -> key_le b.[par i] b.[i]) /\
+  (forall i, (0 < i < length b)%nat -> par i = pos -> key_le x b.[i]) /\
+  (forall i, (0 < i < length b)%nat -> par i = pos -> (0 < pos)%nat -> key_le b.[par pos] b.[i]).
+
+Lemma Hole_done b pos x : Hole b pos x -> (pos = 0%nat \/ key_le b.[par pos] x) -> IsHeap (set_nth pos x b).
+Proof.
+  intros (Hp & J1 & J2 & _) Hend i Hi. rewrite length_set_nth in Hi.
+  rewrite !nth_set_nth by exact Hp.
+  destruct (Nat.eqb i pos) eqn:E1.
+  - apply Nat.eqb_eq in E1. subst i. pose proof (div2_pred_lt pos ltac:(lia)).
+    replace (Nat.eqb (par pos) pos) with false by (symmetry; apply Nat.eqb_neq; lia).
+    destruct Hend as [->|H']; [lia|exact H'].
+  - apply Nat.eqb_neq in E1. destruct (Nat.eqb (par i) pos) eqn:E2.
+    + apply Nat.eqb_eq in E2. apply J2; assumption.
+    + apply J1; assumption.
+Qed.
+
+Lemma Hole_step b pos x : Hole b pos x -> (0 < pos)%nat -> key_lt x b.[par pos] ->
+  Hole (set_nth pos b.[par pos] b) (par pos) x.
+Proof.
+  intros (Hp & J1 & J2 & J3) Hpos Hlt.
+  pose proof (div2_pred_lt pos Hpos) as Hpp.
+  assert (Hne : forall j, Nat.eqb j pos = false -> (set_nth pos b.[par pos] b).[j] = b.[j]).
+  { intros j Hj. rewrite nth_set_nth by exact Hp. rewrite Hj. reflexivity. }
+  assert (Heq : (set_nth pos b.[par pos] b).[pos] = b.[par pos]).
+  { rewrite nth_set_nth by exact Hp. rewrite Nat.eqb_refl. reflexivity. }
+  unfold Hole. rewrite length_set_nth. split; [lia|]. split; [|split].
+  - intros i Hi Hne'. destruct (Nat.eq_dec i pos) as [->|Hip].
+    + rewrite Heq. rewrite Hne by (apply Nat.eqb_neq; lia). apply key_le_refl.
+    + rewrite (Hne i) by (apply Nat.eqb_neq; exact Hip).
+      destruct (Nat.eq_dec (par i) pos) as [Epi|Epi].
+      * rewrite Epi, Heq. apply J3; assumption.
+      * rewrite Hne by (apply Nat.eqb_neq; exact Epi). apply J1; assumption.
+  - intros i Hi Epi. destruct (Nat.eq_dec i pos) as [->|Hip].
+    + rewrite Heq. apply key_lt_le. exact Hlt.
+    + rewrite (Hne i) by (apply Nat.eqb_neq; exact Hip).
+      eapply key_le_trans; [apply key_lt_le; exact Hlt|]. rewrite <- Epi. apply J1; assumption.
+  - intros i Hi Epi Hpp0. pose proof (div2_pred_lt (par pos) Hpp0) as Hppp.
+    rewrite (Hne (par (par pos))) by (apply Nat.eqb_neq; lia).
+    assert (Hgp : key_le b.[par (par pos)] b.[par pos]) by (apply J1; lia).
+    destruct (Nat.eq_dec i pos) as [->|Hip].
+    + rewrite Heq. exact Hgp.
+    + rewrite (Hne i) by (apply Nat.eqb_neq; exact Hip).
+      eapply key_le_trans; [exact Hgp|]. rewrite <- Epi. apply J1; assumption.
+Qed.
+
+Lemma siftdown_heap fuel : forall b pos x, (pos <= fuel)%nat -> Hole b pos x ->
+  IsHeap (bh_siftdown fuel b 0 pos x).
+Proof.
+  induction fuel as [|f IH]; intros b pos x Hf HH; simpl.
+  - apply Hole_done; [exact HH|left; lia].
+  - destruct (Nat.ltb 0 pos) eqn:E0.
+    + apply Nat.ltb_lt in E0. destruct (key_ltb x b.[par pos]) eqn:E1.
+      * apply IH; [pose proof (div2_pred_lt pos E0); lia|]. apply Hole_step; [exact HH|exact E0|apply key_ltb_lt; exact E1].
+      * apply Hole_done; [exact HH|right; apply key_ltb_false_le; exact E1].
+    + apply Nat.ltb_ge in E0. apply Hole_done; [exact HH|left; lia].
+Qed.
+
+(* heapq.heappush keeps the heap condition *)
+Lemma push_heap a x : IsHeap a -> IsHeap (bh_push a x).
+Proof.
+  intro H. unfold bh_push. apply siftdown_heap; [rewrite app_length; simpl; lia|].
+  unfold Hole. rewrite app_length. simpl. split; [lia|]. split; [|split].
+  - intros i Hi Hne. assert (Hil : (i < length a)%nat) by lia.
+    pose proof (div2_pred_lt i ltac:(lia)).
+    rewrite !app_nth1 by lia. apply H. lia.
+  - intros i Hi Epi. exfalso. destruct (par_child i (length a) ltac:(lia) Epi); lia.
+  - intros i Hi Epi. exfalso. destruct (par_child i (length a) ltac:(lia) Epi); lia.
+Qed.
+
+(* first loop of _siftup(heap, 0): the hole travels from the root to a leaf, the smaller child moving up.
+   Invariant: all parent/child pairs are ordered except those with the hole as parent or as child, and
+   the parent of the hole is <= the children of the hole *)
+Definition Leafward (b : list hentry) (pos : nat) : Prop :=
+  (pos < length b)%nat /\
+  (forall i, (0 < i < length b)%nat -> i <> pos -> par i <> pos -> key_le b.[par i] b.[i]) /\
+  (forall i, (0 < i < length b)%nat -> par i = pos -> (0 < pos)%nat -> key_le b.[par pos] b.[i]).
+
+Lemma leafward_inv fuel : forall b pos, Leafward b pos -> (length b - pos <= fuel)%nat ->
+  let '(b1, p) := bh_leafward fuel b (length b) pos in
+  Leafward b1 p /\ length b1 = length b /\ (length b <= 2 * p + 1)%nat.
+Proof.
+  induction fuel as [|f IH]; intros b pos HL Hf; cbn [bh_leafward].
+  - pose proof (proj1 HL). lia.
+  - destruct (Nat.ltb (2 * pos + 1) (length b)) eqn:Ec.
+    2:{ apply Nat.ltb_ge in Ec. cbv beta iota. split; [exact HL|]. split; [reflexivity|lia]. }
+    apply Nat.ltb_lt in Ec.
+    set (c := (2 * pos + 1)%nat) in *. set (r := (c + 1)%nat).
+    set (c' := if Nat.ltb r (length b) && negb (key_ltb b.[c] b.[r]) then r else c).
+    destruct HL as (Hp & L1 & L2).
+    assert (Hc' : (c' = c \/ c' = r) /\ (c' < length b)%nat /\ par c' = pos /\
+                  (forall i, (0 < i < length b)%nat -> par i = pos -> key_le b.[c'] b.[i])).
+    { unfold c'. destruct (Nat.ltb r (length b)) eqn:Er; simpl.
+      - apply Nat.ltb_lt in Er. destruct (key_ltb b.[c] b.[r]) eqn:Ek; simpl.
+        + split; [left; reflexivity|]. split; [exact Ec|]. split; [apply par_left|].
+          intros i Hi Epi. destruct (par_child i pos ltac:(lia) Epi) as [-> | ->]; [apply key_le_refl|].
+          replace (2 * pos + 2)%nat with r by (unfold r, c; lia). apply key_lt_le. apply key_ltb_lt. exact Ek.
+        + split; [right; reflexivity|]. split; [exact Er|]. split; [unfold r, c; replace (2 * pos + 1 + 1)%nat with (2 * pos + 2)%nat by lia; apply par_right|].
+          intros i Hi Epi. destruct (par_child i pos ltac:(lia) Epi) as [-> | ->].
+          * apply key_ltb_false_le. exact Ek.
+          * unfold r, c. replace (2 * pos + 1 + 1)%nat with (2 * pos + 2)%nat by lia. apply key_le_refl.
+      - apply Nat.ltb_ge in Er. split; [left; reflexivity|]. split; [exact Ec|]. split; [apply par_left|].
+        intros i Hi Epi. destruct (par_child i pos ltac:(lia) Epi) as [-> | ->]; [apply key_le_refl|]. unfold r, c in Er. lia. }
+    destruct Hc' as (Hcr & Hclt & Hpar & Hmin).
+    assert (Hgt : (pos < c')%nat) by (destruct Hcr as [-> | ->]; unfold r, c; lia).
+    assert (Hne : forall j, j <> pos -> (set_nth pos b.[c'] b).[j] = b.[j]).
+    { intros j Hj. rewrite nth_set_nth by exact Hp. apply Nat.eqb_neq in Hj. rewrite Hj. reflexivity. }
+    assert (Heq : (set_nth pos b.[c'] b).[pos] = b.[c']).
+    { rewrite nth_set_nth by exact Hp. rewrite Nat.eqb_refl. reflexivity. }
+    specialize (IH (set_nth pos b.[c'] b) c'). rewrite length_set_nth in IH.
+    assert (HL' : Leafward (set_nth pos b.[c'] b) c').
+    { unfold Leafward. rewrite length_set_nth. split; [exact Hclt|]. split.
+      - intros i Hi Hic Hpic. destruct (Nat.eq_dec i pos) as [->|Hip].
+        + rewrite Heq. pose proof (div2_pred_lt pos ltac:(lia)). rewrite Hne by lia.
+          apply L2; [lia|exact Hpar|lia].
+        + rewrite (Hne i) by exact Hip. destruct (Nat.eq_dec (par i) pos) as [Epi|Epi].
+          * rewrite Epi, Heq. apply Hmin; assumption.
+          * rewrite Hne by exact Epi. apply L1; assumption.
+      - intros i Hi Epi _. rewrite Hpar, Heq.
+        assert (i <> pos) by (pose proof (div2_pred_lt i ltac:(lia)); lia).
+        rewrite (Hne i) by assumption. rewrite <- Epi. apply L1; [exact Hi|assumption|lia]. }
+    specialize (IH HL' ltac:(lia)).
+    destruct (bh_leafward f (set_nth pos b.[c'] b) (length b) c') as [b1 p]. exact IH.
+Qed.
+
+Lemma siftup0_heap a0 : a0 <> [] ->
+  (forall i, (0 < i < length a0)%nat -> par i <> 0%nat -> key_le a0.[par i] a0.[i]) ->
+  IsHeap (bh_siftup a0 0).
+Proof.
+  intros Hne Hrel. unfold bh_siftup.
+  assert (HL : Leafward a0 0).
+  { split; [destruct a0; [contradiction|simpl; lia]|]. split; [intros i Hi _ Hp; apply Hrel; assumption|intros; lia]. }
+  pose proof (leafward_inv (length a0) a0 0 HL ltac:(lia)) as H.
+  destruct (bh_leafward (length a0) a0 (length a0) 0) as [b1 p].
+  destruct H as ((Hp & L1 & L2) & Hlen & Hleaf).
+  apply siftdown_heap; [lia|].
+  assert (Hnochild : forall i, (0 < i < length b1)%nat -> par i <> p).
+  { intros i Hi Epi. destruct (par_child i p ltac:(lia) Epi); lia. }
+  unfold Hole. rewrite length_set_nth. split; [exact Hp|]. split; [|split].
+  - intros i Hi Hip. rewrite !nth_set_nth by exact Hp.
+    replace (Nat.eqb i p) with false by (symmetry; apply Nat.eqb_neq; exact Hip).
+    replace (Nat.eqb (par i) p) with false by (symmetry; apply Nat.eqb_neq; apply Hnochild; exact Hi).
+    apply L1; [exact Hi|exact Hip|apply Hnochild; exact Hi].
+  - intros i Hi Epi. exfalso. exact (Hnochild i Hi Epi).
+  - intros i Hi Epi. exfalso. exact (Hnochild i Hi Epi).
+Qed.
+
+(* heapq.heappop keeps the heap condition *)
+Lemma pop_heap a x a' : IsHeap a -> bh_pop a = Some (x, a') -> IsHeap a'.
+Proof.
+  intros H. unfold bh_pop. destruct (rev a) as [|lastelt rinit] eqn:Er; [discriminate|].
+  destruct (rev rinit) as [|top rest] eqn:Er2.
+  - intro E. injection E as _ <-. intros i Hi. simpl in Hi. lia.
+  - intro E. injection E as _ <-.
+    assert (Ha : a = (top :: rest) ++ [lastelt]).
+    { rewrite <- (rev_involutive a), Er. simpl. rewrite Er2. reflexivity. }
+    apply siftup0_heap; [discriminate|].
+    intros i Hi Hp. simpl length in Hi.
+    assert (Hi0 : (0 < par i)%nat) by lia. pose proof (div2_pred_lt i ltac:(lia)) as Hlt.
+    assert (E1 : (lastelt :: rest).[i] = a.[i]).
+    { rewrite Ha, app_nth1 by (simpl; lia). destruct i; [lia|reflexivity]. }
+    assert (E2 : (lastelt :: rest).[par i] = a.[par i]).
+    { rewrite Ha, app_nth1 by (simpl; lia). destruct (par i); [lia|reflexivity]. }
+    rewrite E1, E2. apply H. rewrite Ha, app_length. simpl. lia.
+Qed.
+
+Lemma pop_top a x a' : bh_pop a = Some (x, a') -> x = a.[0].
+Proof.
+  unfold bh_pop. destruct (rev a) as [|lastelt rinit] eqn:Er; [discriminate|].
+  assert (Ha : a = rev rinit ++ [lastelt]) by (rewrite <- (rev_involutive a), Er; reflexivity).
+  destruct (rev rinit) as [|top rest]; intro E; injection E as <- _; rewrite Ha; reflexivity.
+Qed.
+
+(* ======================================================================== *)
+(*  heappush and heappop keep the events (as a multiset)                     *)
+(* ======================================================================== *)
+Lemma set_nth_overwrite {A} (l : list A) : forall i x y, set_nth i y (set_nth i x l) = set_nth i y l.
+Proof. induction l as [|z l IH]; intros [|i] x y; simpl; try reflexivity. rewrite IH. reflexivity. Qed.
+
+Lemma set_nth_comm {A} (l : list A) : forall i j x y, i <> j ->
+  set_nth i x (set_nth j y l) = set_nth j y (set_nth i x l).
+Proof.
+  induction l as [|z l IH]; intros [|i] [|j] x y Hne; simpl; try reflexivity; try lia.
+  rewrite IH by lia. reflexivity.
+Qed.
+
+Lemma set_nth_app_r {A} (l1 l : list A) k x : set_nth (length l1 + k) x (l1 ++ l) = l1 ++ set_nth k x l.
+Proof. induction l1 as [|y l1 IH]; simpl; [reflexivity|]. rewrite IH. reflexivity. Qed.
+
+Lemma split_at {A} (l : list A) d : forall i, (i < length l)%nat ->
+  exists l1 l2, l = l1 ++ nth i l d :: l2 /\ length l1 = i.
+Proof.
+  induction l as [|y l IH]; intros i Hi; simpl in Hi; [lia|]. destruct i as [|i].
+  - exists [], l. split; reflexivity.
+  - destruct (IH i ltac:(lia)) as (l1 & l2 & E & Hl). exists (y :: l1), l2. simpl. rewrite <- E. split; [reflexivity|lia].
+Qed.
+
+Lemma swap_perm_lt (l : list hentry) i j : (i < j < length l)%nat ->
+  Permutation (set_nth i l.[j] (set_nth j l.[i] l)) l.
+Proof.
+  intros Hij. destruct (split_at l hdummy i ltac:(lia)) as (l1 & r1 & E1 & Hl1).
+  set (u := l.[i]) in *. set (v := l.[j]) in *.
+  assert (Hj' : (j - S i < length r1)%nat).
+  { rewrite E1, app_length in Hij. simpl in Hij. lia. }
+  destruct (split_at r1 hdummy (j - S i) Hj') as (l2 & l3 & E2 & Hl2).
+  assert (Ev : r1.[j - S i] = v).
+  { unfold v. rewrite E1. rewrite app_nth2 by lia. rewrite Hl1.
+    replace (j - i)%nat with (S (j - S i)) by lia. reflexivity. }
+  rewrite Ev in E2.
+  assert (El : l = l1 ++ u :: l2 ++ v :: l3) by (rewrite E1 at 1; rewrite E2 at 1; reflexivity).
+  assert (S1 : set_nth j u l = l1 ++ u :: l2 ++ u :: l3).
+  { rewrite El at 1. replace j with (length l1 + S (length l2))%nat by lia.
+    rewrite set_nth_app_r. simpl. f_equal. f_equal.
+    replace (length l2) with (length l2 + 0)%nat by lia. rewrite set_nth_app_r. reflexivity. }
+  rewrite S1. replace i with (length l1 + 0)%nat by lia. rewrite set_nth_app_r. simpl.
+  rewrite El. apply Permutation_app_head.
+  eapply perm_trans; [apply perm_skip; apply Permutation_sym; apply Permutation_middle|].
+  eapply perm_trans; [apply perm_swap|]. apply perm_skip. apply Permutation_middle.
+Qed.
+
+Lemma swap_perm (l : list hentry) i j : (i < length l)%nat -> (j < length l)%nat -> i <> j ->
+  Permutation (set_nth i l.[j] (set_nth j l.[i] l)) l.
+Proof.
+  intros Hi Hj Hne. destruct (Nat.lt_ge_cases i j) as [H|H].
+  - apply swap_perm_lt. lia.
+  - rewrite set_nth_comm by exact Hne. apply swap_perm_lt. lia.
+Qed.
+
+(* moving the hole from pos to q (the entry of q goes to pos) is a transposition of the array with x in the hole *)
+Lemma hole_move_perm b pos q x : (pos < length b)%nat -> (q < length b)%nat -> pos <> q ->
+  Permutation (set_nth q x (set_nth pos b.[q] b)) (set_nth pos x b).
+Proof.
+  intros Hp Hq Hne. set (c := set_nth pos x b).
+  assert (Hc : length c = length b) by apply length_set_nth.
+  assert (E : set_nth q x (set_nth pos b.[q] b) = set_nth q c.[pos] (set_nth pos c.[q] c)).
+  { unfold c. rewrite !nth_set_nth by exact Hp. rewrite Nat.eqb_refl.
+    replace (Nat.eqb q pos) with false by (symmetry; apply Nat.eqb_neq; lia).
+    rewrite set_nth_overwrite. reflexivity. }
+  rewrite E. apply swap_perm; lia.
+Qed.
+
+Lemma siftdown_perm k fuel : forall b pos x, (pos < length b)%nat ->
+  Permutation (bh_siftdown fuel b k pos x) (set_nth pos x b).
+Proof.
+  induction fuel as [|f IH]; intros b pos x Hp; simpl; [reflexivity|].
+  destruct (Nat.ltb k pos) eqn:E0; [|reflexivity].
+  apply Nat.ltb_lt in E0. destruct (key_ltb x b.[par pos]); [|reflexivity].
+  pose proof (div2_pred_lt pos ltac:(lia)) as Hpp.
+  eapply perm_trans; [apply IH; rewrite length_set_nth; lia|].
+  apply hole_move_perm; lia.
+Qed.
+
+Lemma push_perm a x : Permutation (bh_push a x) (x :: a).
+Proof.
+  unfold bh_push. eapply perm_trans; [apply siftdown_perm; rewrite app_length; simpl; lia|].
+  replace (length a) with (length a + 0)%nat at 1 by lia. rewrite set_nth_app_r. simpl.
+  apply Permutation_sym. apply Permutation_cons_append.
+Qed.
+
+Lemma leafward_perm fuel : forall b pos x, (pos < length b)%nat ->
+  let '(b1, p) := bh_leafward fuel b (length b) pos in
+  Permutation (set_nth p x b1) (set_nth pos x b) /\ length b1 = length b /\ (p < length b)%nat.
+Proof.
+  induction fuel as [|f IH]; intros b pos x Hp; cbn [bh_leafward]; [cbv beta iota; auto|].
+  destruct (Nat.ltb (2 * pos + 1) (length b)) eqn:Ec; [|cbv beta iota; auto].
+  apply Nat.ltb_lt in Ec.
+  set (c' := if Nat.ltb (2 * pos + 1 + 1) (length b) && negb (key_ltb b.[2 * pos + 1] b.[2 * pos + 1 + 1])
+             then (2 * pos + 1 + 1)%nat else (2 * pos + 1)%nat).
+  assert (Hc : (pos < c' < length b)%nat).
+  { unfold c'. destruct (Nat.ltb (2 * pos + 1 + 1) (length b)) eqn:Er; simpl.
+    - apply Nat.ltb_lt in Er. destruct (negb _); lia.
+    - lia. }
+  specialize (IH (set_nth pos b.[c'] b) c' x). rewrite length_set_nth in IH. specialize (IH ltac:(lia)).
+  destruct (bh_leafward f (set_nth pos b.[c'] b) (length b) c') as [b1 p].
+  destruct IH as (P & L & Hlt). split; [|split; assumption].
+  eapply perm_trans; [exact P|]. apply hole_move_perm; lia.
+Qed.
+
+Lemma pop_perm a x a' : bh_pop a = Some (x, a') -> Permutation a (x :: a').
+Proof.
+  unfold bh_pop. destruct (rev a) as [|lastelt rinit] eqn:Er; [discriminate|].
+  assert (Ha : a = rev rinit ++ [lastelt]) by (rewrite <- (rev_involutive a), Er; reflexivity).
+  destruct (rev rinit) as [|top rest].
+  - intro E. injection E as <- <-. rewrite Ha. reflexivity.
+  - intro E. injection E as <- <-. rewrite Ha. simpl.
+    apply perm_skip. unfold bh_siftup.
+    pose proof (leafward_perm (length (lastelt :: rest)) (lastelt :: rest) 0 lastelt ltac:(simpl; lia)) as H.
+    change ((lastelt :: rest).[0]) with lastelt.
+    destruct (bh_leafward (length (lastelt :: rest)) (lastelt :: rest) (length (lastelt :: rest)) 0) as [b1 p].
+    destruct H as (P & L & Hlt).
+    eapply perm_trans; [apply Permutation_sym; apply Permutation_cons_append|].
+    apply Permutation_sym. eapply perm_trans; [apply siftdown_perm; rewrite length_set_nth, L; exact Hlt|].
+    rewrite set_nth_overwrite. exact P.
+Qed.
+
+(* _siftup at any position and heapify keep the events; so does remove_events up to the filter *)
+Lemma siftup_perm a pos : (pos < length a)%nat -> Permutation (bh_siftup a pos) a.
+Proof.
+  intro Hp. unfold bh_siftup.
+  pose proof (leafward_perm (length a) a pos a.[pos] Hp) as H.
+  destruct (bh_leafward (length a) a (length a) pos) as [b1 p]. destruct H as (P & L & Hlt).
+  eapply perm_trans; [apply siftdown_perm; rewrite length_set_nth, L; exact Hlt|].
+  rewrite set_nth_overwrite. eapply perm_trans; [exact P|].
+  assert (E : set_nth pos a.[pos] a = a).
+  { clear. revert pos. induction a as [|y a IH]; intros [|pos]; simpl; try reflexivity. rewrite IH. reflexivity. }
+  rewrite E. reflexivity.
+Qed.
+
+Lemma heapify_perm a : Permutation (bh_heapify a) a.
+Proof.
+  unfold bh_heapify.
+  assert (H : forall idx acc, Permutation acc a -> (forall i, In i idx -> (i < length a)%nat) ->
+              Permutation (fold_left (fun acc i => bh_siftup acc i) idx acc) a).
+  { induction idx as [|i idx IH]; intros acc HP Hidx; simpl; [exact HP|].
+    apply IH; [|intros j Hj; apply Hidx; right; exact Hj].
+    eapply perm_trans; [apply siftup_perm|exact HP].
+    rewrite (Permutation_length HP). apply Hidx. left. reflexivity. }
+  apply H; [reflexivity|]. intros i Hi. apply in_rev, in_seq in Hi.
+  pose proof (Nat.div2_decr (length a) (length a)). destruct (length a); simpl in *; lia.
+Qed.
+
+(* the three SimulatorState operations on the array *)
+Lemma bhs_push_ok s t ev time : IsHeap (fst s) ->
+  IsHeap (fst (bhs_push s t ev time)) /\ Permutation (fst (bhs_push s t ev time)) (mkH time (snd s) t ev :: fst s).
+Proof. intro H. split; [apply push_heap; exact H|apply push_perm]. Qed.
+
+Lemma bhs_next_ok s until : IsHeap (fst s) ->
+  match bhs_next_until s until with
+  | (Some x, s') => In x (fst s) /\ (forall y, In y (fst s) -> key_le x y) /\ h_time x <= until /\
+                    Permutation (fst s) (x :: fst s') /\ IsHeap (fst s') /\ snd s' = snd s
+  | (None, s') => s' = s /\ (forall y, In y (fst s) -> until < h_time y)
+  end.
+Proof.
+  intro H. unfold bhs_next_until. destruct (fst s) as [|top rest] eqn:Ea.
+  - split; [reflexivity|intros y []].
+  - destruct (Qleb (h_time top) until) eqn:Eq.
+    + destruct (bh_pop (top :: rest)) as [[x a']|] eqn:Ep.
+      * pose proof (pop_top _ _ _ Ep) as Ex. simpl in Ex. subst x.
+        pose proof (pop_perm _ _ _ Ep) as HP. pose proof (pop_heap _ _ _ H Ep) as HH.
+        simpl. split; [left; reflexivity|]. split.
+        -- intros y Hy. change (In y (top :: rest)) in Hy. apply (In_nth _ _ hdummy) in Hy as (i & Hi & <-).
+           exact (heap_root_min (top :: rest) H i Hi).
+        -- split; [apply Qleb_le; exact Eq|]. split; [exact HP|]. split; [exact HH|reflexivity].
+      * exfalso. unfold bh_pop in Ep. destruct (rev (top :: rest)) as [|l r] eqn:Er.
+        -- apply (f_equal (@length hentry)) in Er. rewrite rev_length in Er. discriminate.
+        -- destruct (rev r); discriminate.
+    + split; [reflexivity|]. intros y Hy.
+      assert (Hlt : until < h_time top).
+      { apply Qnot_le_lt. intro Hle. apply Qleb_le in Hle. congruence. }
+      change (In y (top :: rest)) in Hy. apply (In_nth _ _ hdummy) in Hy as (i & Hi & <-).
+      pose proof (heap_root_min (top :: rest) H i Hi) as Hle. simpl in Hle.
+      unfold key_le, key_lt in Hle.
+      destruct (Qlt_le_dec (h_time (nth i (top :: rest) hdummy)) (h_time top)) as [Hl|Hl]; [exfalso; apply Hle; left; exact Hl|lra].
+Qed.
+
+Lemma bhs_remove_perm s t : Permutation (fst (bhs_remove s t)) (remove_events t (fst s)).
+Proof. apply heapify_perm. Qed.
+
+(* sequences of push / next_until on the array, from the empty queue *)
+Inductive qop := QPush (t : nat) (ev : event) (time : Q) | QNext (until : Q).
+Definition q_step (s : bh_state) (o : qop) : bh_state :=
+  match o with
+  | QPush t ev time => bhs_push s t ev time
+  | QNext until => snd (bhs_next_until s until)
+  end.
+Lemma q_run_heap ops : forall s, IsHeap (fst s) -> IsHeap (fst (fold_left q_step ops s)).
+Proof.
+  induction ops as [|o ops IH]; intros s H; simpl; [exact H|]. apply IH.
+  destruct o as [t ev time|until]; simpl.
+  - apply push_heap. exact H.
+  - pose proof (bhs_next_ok s until H) as Hn. destruct (bhs_next_until s until) as [[x|] s'].
+    + destruct Hn as (_ & _ & _ & _ & HH & _). exact HH.
+    + destruct Hn as [-> _]. exact H.
+Qed.
+Lemma heap_nil : IsHeap [].
+Proof. intros i Hi. simpl in Hi. lia. Qed.
